@@ -1051,6 +1051,7 @@ impl Engine {
                             viol!(self, "C12", format!("lower get(start row {start}, order {order}) returned block {frame} which is not an aligned free block of tree {tree}"));
                         } else {
                             sh.apply_get(frame, order);
+                            self.held.push((frame, order));
                         }
                         format!("ok {frame}")
                     }
